@@ -221,6 +221,34 @@ func runSet[K keyC](c *enum.Ctx, tname string, model []kv, order []int, universe
 			c.Fail("encoding-wrong-mapping:"+tname, "tongo's encoding of %s (order %v) represents %s", fmtKV(model), order, fmtKV(got))
 			return
 		}
+		// (a') the lookup that walks the encoded cells (the one that also produces a Merkle proof) finds exactly the keys
+		// of the mapping: the stored value for a present key, an error for every other key of the universe
+		if len(model) > 0 && enc.RefsSize() == 1 {
+			refs := enc.Refs()
+			if prover, err := tb.NewMerkleProver(refs[0]); err == nil {
+				for _, ub := range universe {
+					if len(ub) != n {
+						continue
+					}
+					bs := tb.NewBitString(len(ub))
+					for _, x := range ub {
+						_ = bs.WriteBit(x)
+					}
+					refs[0].ResetCounters()
+					val, _, perr := tlb.ProveKeyInHashmap[tlb.Uint8](prover, refs[0], bs)
+					wantVal, present := lookup(model, ub)
+					if present && (perr != nil || uint8(val) != wantVal) {
+						c.Fail("cell-lookup:"+tname, "ProveKeyInHashmap(%s) on the encoding of %s = %d,%v want %d", ub, fmtKV(model), val, perr, wantVal)
+						return
+					}
+					if !present && perr == nil {
+						c.Fail("cell-lookup-absent-found:"+tname, "ProveKeyInHashmap finds the absent key %s in the encoding of %s (value %d)", ub, fmtKV(model), val)
+						return
+					}
+				}
+				refs[0].ResetCounters()
+			}
+		}
 		// (c) independent of insertion order: same hash as sorted insertion
 		var h0 tlb.HashmapE[K, tlb.Uint8]
 		for _, e := range model {
